@@ -56,6 +56,7 @@ def run(rep, tier, seed):
     quick = tier == 'quick'
     needs, cells = _tables(rep)
     flow.run_gen(rep, {'Iface', 'Steps', 'Ops'}, seed, 3 if quick else 40)
+    flow.run_selftest(rep, seed, 30 if tier == 'quick' else 300)
     flow.run_proofs(rep, PROOFS, extra_scan=SCAN)
     # ---- the model's predictions, and the real sdeint
     model, sup, fails = {}, {}, []
